@@ -2,6 +2,7 @@ package main
 
 import (
 	"bytes"
+	"context"
 	"encoding/binary"
 	"fmt"
 	"os"
@@ -23,8 +24,9 @@ func init() {
 		ID: "C06",
 		Rule: "generated valid PBF files (1..4 blocks) cut at EVERY byte offset from 0 to the full length; and every damage class (oversized BlobHeader length, negative and oversized datasize, raw_size too large / too small / zero, corrupt zlib data, lzma-only blob, blob without data, unknown block type, unsupported required feature, dense group without ids / lat / lon, string reference beyond the table in dense / way / relation, info column shorter than ids, way lat column longer than refs, relation types shorter than roles, plain (non-dense) Node group) applied at every block position, decoder counts 1..4; every damaged scan runs in an isolated child process so that a crash is observed as the result of that one case; " +
 			"non-trivial = every op; distinct = distinct op line",
-		Gen:  c06Gen,
-		Exec: c06Exec,
+		Gen:       c06Gen,
+		Exec:      c06Exec,
+		ModelSkip: func(op string) bool { return strings.HasPrefix(op, "ztrail ") },
 		Class: func(op, out string) string {
 			f := fields(op)
 			if f[0] == "dmg" {
@@ -410,6 +412,46 @@ func c06Exec(op string) (string, *Violation) {
 			return line, &Violation{Signature: sig, Text: fmt.Sprintf("the stream is cut at byte %d of %d (%s), not on a block boundary, and the scan reports success after %d objects", off, len(data), where, len(objs))}
 		}
 		return line, nil
+	case "ztrail":
+		// ztrail <procs>: a well-formed file whose second data block's zlib stream is followed by one byte. The data
+		// is intact, so success and an error are both acceptable; a scan that does not end is not. Run in a child
+		// process that is killed after a few seconds (the hang spins inside the inflate reader).
+		if os.Getenv("VERIF_CHILD") == "" {
+			exe, err := os.Executable()
+			if err != nil {
+				return "bad-op", nil
+			}
+			cmd := exec.Command(exe, append([]string{"child", "C06"}, fields(op)...)...)
+			cmd.Env = append(os.Environ(), "VERIF_CHILD=1", "GOMEMLIMIT=2GiB")
+			done := make(chan error, 1)
+			if err := cmd.Start(); err != nil {
+				return "bad-op", nil
+			}
+			go func() { done <- cmd.Wait() }()
+			select {
+			case <-done:
+				return "ended", nil
+			case <-time.After(8 * time.Second):
+				_ = cmd.Process.Kill()
+				return "HANG", &Violation{Signature: "pbf-hang-zlib-trailing-byte", Text: "the scan of a stream whose zlib data is followed by one extra byte does not end (child killed after 8s); Close does not return either"}
+			}
+		}
+		{
+			procs, _ := strconv.Atoi(f[1])
+			pf := &PFile{Header: &PHeader{Req: []string{"OsmSchema-V0.6", "DenseNodes"}}}
+			for b := 0; b < 3; b++ {
+				pf.Blocks = append(pf.Blocks, PBlock{Zlib: true, Strings: []string{""}, Groups: []PGroup{{Dense: &PDense{IDs: []int64{int64(3*b + 1), 1, 1}, Lat: []int64{1, 1, 1}, Lon: []int64{5, 1, 1}}}}})
+			}
+			frames := pf.Frames()
+			frames[2] = frame("OSMData", pf.Blocks[1].primitiveBlock(), true, frameOpt{trailingZlib: true})
+			s := osmpbf.New(context.Background(), bytes.NewReader(joinFrames(frames)), procs)
+			n := 0
+			for s.Scan() {
+				n++
+			}
+			_ = s.Close()
+			return fmt.Sprintf("ended n=%d", n), nil
+		}
 	case "dmg":
 		if os.Getenv("VERIF_CHILD") == "" {
 			// isolate: a crash must be the result of this one case
